@@ -3,6 +3,7 @@
 package server
 
 import (
+	"net"
 	"sort"
 
 	"github.com/fatedier/frp/pkg/util/verifhook"
@@ -63,3 +64,7 @@ func (svr *Service) VerifState() VerifState {
 
 // VerifRC exposes the resource controller (verification tooling only).
 func (svr *Service) VerifRC() *controller.ResourceController { return svr.rc }
+
+// VerifPutInternalConn injects a connection into the internal (ssh tunnel gateway) listener,
+// exactly as pkg/ssh and pkg/virtual do (verification tooling only).
+func (svr *Service) VerifPutInternalConn(c net.Conn) error { return svr.sshTunnelListener.PutConn(c) }
